@@ -16,6 +16,8 @@
 (*            the decoder starts (harness: skip0, or 0 after a restart)                          *)
 (*     tp     tree = tree of parse(bytes decoded as e after stripping a standard BOM) and e is   *)
 (*            the BOM's encoding if there is one   (the property's clause)                       *)
+(*     tm     the HTML meta elements of the RETURNED TREE in document order (attributes cs/he/ct), *)
+(*            projected from the etree by the harness - independent of the hook behind ev         *)
 (*  k = "extract": one ContentAttrParser(EncodingBytes(v)).parse() call: v, out.                *)
 (* Every trace gets exactly one verdict.  The code must equal the code-faithful model           *)
 (* (KnownDefects) at every step: the initial determination, then one MetaTag step per recorded  *)
@@ -74,6 +76,16 @@ StepEvent(tr, r) ==
         ELSE IF ~CertainStable(s0, [enc |-> ev.ae, conf |-> ev.ac]) THEN R(r.l, "reject:certain-changed", r.st, r.fk)
         ELSE R(r.l + 1, "run", s2, IF Eff({}) = Eff(D) THEN r.fk ELSE r.fk \cup Attrib(Eff, LateCand))
 
+\* --- independent clause: the result tree against the recorded events ---
+\* Every meta element of the result tree was inserted by the "in head" meta rule, i.e. it is one of the metas
+\* met in the final pass (as a bag: foster parenting can reorder, and a body replaced by a frameset takes its
+\* metas with it, so the tree may hold fewer).  And a parse that ends tentative has no declaring meta in its tree.
+LastRestart(ev) == IF \E i \in 1..Len(ev) : ev[i].r THEN CHOOSE i \in 1..Len(ev) : ev[i].r /\ \A j \in (i + 1)..Len(ev) : ~ev[j].r ELSE 0
+FinalMet(ev) == LET lr == LastRestart(ev) IN [i \in 1..(Len(ev) - lr) |-> [cs |-> ev[lr + i].cs, he |-> ev[lr + i].he, ct |-> ev[lr + i].ct]]
+Count(seq, x) == Cardinality({i \in 1..Len(seq) : seq[i] = x})
+TreeMetasMet(tr) == LET fm == FinalMet(tr.ev) IN \A i \in 1..Len(tr.tm) : Count(tr.tm, tr.tm[i]) <= Count(fm, tr.tm[i])
+TentativeHasNoDeclaration(tr) == tr.c = "tentative" => \A i \in 1..Len(tr.tm) : ~Declares(tr.tm[i], D)
+
 \* last step: what parse() returned
 StepFinal(tr, r) ==
     LET bomdev == BomStep(DetectBom(tr.data, D), D) # BomStep(DetectBom(tr.data, {}), {})
@@ -83,6 +95,8 @@ StepFinal(tr, r) ==
              ELSE IF tr.from # sf.from THEN "reject:final-position"
              ELSE IF ~tr.ds THEN "reject:decoder-is-not-the-reported-encoding"
              ELSE IF ~tr.tf THEN "reject:tree"
+             ELSE IF ~TreeMetasMet(tr) THEN "reject:tree-meta-not-met-by-in-head-rules"
+             ELSE IF ~TentativeHasNoDeclaration(tr) THEN "reject:tentative-but-tree-has-declaring-meta"
              ELSE IF ~tr.tp /\ ~("bom-utf32-shadows-utf16" \in D /\ bomdev) THEN "reject:tree-property"
              ELSE IF ~tr.tp THEN "finding"
              ELSE IF r.fk # {} THEN "finding" ELSE "accept"
